@@ -692,7 +692,7 @@ def units(tier, seed):
     if tier == 'quick':
         for rem in range(16):
             us.append({'kind': 'enum', 'must': True, 'ntasks': 2, 'length': 3, 'mod': 16, 'rem': rem})
-        n = 600
+        n = 1500
     else:
         for rem in range(256):
             us.append({'kind': 'enum', 'must': True, 'ntasks': 2, 'length': 5, 'mod': 256, 'rem': rem})
